@@ -901,6 +901,15 @@ C09_CROSSNS_PART = (G, "gosym_part", dict(name="c09_cross_namespace_cycles", ent
                                desc="a reference cycle whose members lie in two namespaces (Main.Foo -> Dep.Bar -> Main.Foo, optionally through one more record): the real dsl.Validate terminates without "
                                     "panic, rejects the model naming a model file, and accepts the same definitions without the back-reference"))
 
+C09_MAPKEY_PART = (G, "gosym_part", dict(name="c09_generic_map_keys", entry="internal/zzverif.C09GenericMapKey",
+                               required_sites=("no-panic", "instantiated-key-position-has-the-verdict-of-the-map-written-out", "error-names-the-file-of-the-instantiation"),
+                               assumptions=C09_GENERIC_ASSUME + ["metamorphic oracle: the verdict of the real dsl.Validate on the map written out (X->int) in the same position",
+                                                                 "key arguments: string, int, an alias of string, a record, an enum, an alias of a vector, an imported record; carriers: Lib.Dict<X,int> (= K->V), "
+                                                                 "a local generic alias of it, Lib.Box<Lib.Dict<X,int>>, a generic record with a map field keyed by its parameter; as record field, alias target, step; "
+                                                                 "in the main or the imported namespace"],
+                               desc="the key position of a generic map alias / of a generic record's map field filled by a type argument: accepted iff the same map written out is accepted, "
+                                    "and a rejection names the file in which the instantiation is written"))
+
 PARTS = {
     "C08": [
         C08_RESERVED_PART,   # identifiers derived from model names are never C++ / Python reserved words
@@ -1137,6 +1146,7 @@ PARTS = {
     ],
     "C10": [C06_REMOVALS_PART, C09_CROSSNS_PART, C13_LAYOUT_PARTS[0]] + [C10_FORMS[f] for f in (0, 1, 3, 4, 5)] + [only_thorough(C10_FORMS[f]) for f in (2, 6)] + C10_SHAPES + [C10_GRAPH_PART, C10_PARSER_PART, C10_DEFUSE_PART, C10_CYCLE_SPELLINGS_PART, C10_BUDGET_PART] + C10_YAML,  # C10_GRAPH_PART: no hang / panic of the package loader for any import graph
     "C09": [
+        C09_MAPKEY_PART,
         C09_CROSSNS_PART,
         (G, "gosym_part", dict(name="c09_base", entry="internal/zzverif.C09Base", required_sites=("base-accepted",), assumptions=C09_ASSUME,
                                desc="the unmodified two-namespace base model validates (guards against an over-rejecting harness)")),
